@@ -1732,6 +1732,10 @@ class Scheduler:
             if job.recording_provenance():
                 self.backend.record_job_start(job)
 
+            # This job will not use the resources it may have been nominated for, so give
+            # other jobs waiting for limits a chance to run.
+            self._check_jobs_pending_limits()
+
             return
 
         # Check cache for job.
@@ -1757,6 +1761,10 @@ class Scheduler:
             # There's no work to do, but be sure we consider it started.
             if job.recording_provenance():
                 self.backend.record_job_start(job)
+
+            # This job will not use the resources it may have been nominated for, so give
+            # other jobs waiting for limits a chance to run.
+            self._check_jobs_pending_limits()
 
             # Trigger downstream steps, just like an executor would, upon completing it.
             # One of the roles of `done_job` is to trigger evaluation on `result`, in case it is
